@@ -299,7 +299,7 @@ func replyAfterRelease() {
 		kit.Quiesce()
 	}
 	reply := payload("reply-A", size)
-	sc := kit.Start("Send", func() (interface{}, error) { return nil, x.S.Send([]byte(reply)) })
+	sc := kit.Start("Send", func() (interface{}, error) { return nil, kit.SendBytes(x.S, []byte(reply)) })
 	kit.Quiesce()
 	if !sc.Done() || sc.Err != nil {
 		kit.Failf("reply-send:"+k.Name, "%s: Send of the reply: done=%v %s", k.Name, sc.Done(), kit.ErrName(sc.Err))
@@ -446,8 +446,8 @@ func fanoutPubSub() {
 	must(c2.SetOption(mangos.OptionSubscribe, "pay"), "Subscribe")
 	kit.Quiesce()
 	body := payload("payload", 200)
-	s1 := kit.Start("Send1", func() (interface{}, error) { return nil, p.Send([]byte(body)) })
-	s2 := kit.Start("Send2", func() (interface{}, error) { return nil, p.Send([]byte(payload("zzz", 70))) })
+	s1 := kit.Start("Send1", func() (interface{}, error) { return nil, kit.SendBytes(p, []byte(body)) })
+	s2 := kit.Start("Send2", func() (interface{}, error) { return nil, kit.SendBytes(p, []byte(payload("zzz", 70))) })
 	kit.Quiesce()
 	if !s1.Done() || !s2.Done() {
 		kit.Failf("fanout-send", "publisher blocked")
@@ -459,7 +459,7 @@ func fanoutPubSub() {
 	}
 	snaps = append(snaps, recvKeep("sub1.ctx", c2, body))
 	// more traffic of another size reuses whatever was released
-	_ = p.Send([]byte(payload("later", 200)))
+	_ = kit.SendBytes(p, []byte(payload("later", 200)))
 	kit.Quiesce()
 	scribble(snaps)
 	kit.Must("Close", func() {
@@ -485,8 +485,8 @@ func fanoutMesh(c func() (mangos.Socket, error)) {
 	}
 	kit.Quiesce()
 	body := payload("fromhub", 130)
-	a := kit.Start("SendHub", func() (interface{}, error) { return nil, hub.Send([]byte(body)) })
-	b := kit.Start("SendLeaf", func() (interface{}, error) { return nil, socks[1].Send([]byte(payload("fromleaf", 130))) })
+	a := kit.Start("SendHub", func() (interface{}, error) { return nil, kit.SendBytes(hub, []byte(body)) })
+	b := kit.Start("SendLeaf", func() (interface{}, error) { return nil, kit.SendBytes(socks[1], []byte(payload("fromleaf", 130))) })
 	kit.Quiesce()
 	if !a.Done() || !b.Done() {
 		kit.Failf("fanout-send", "sender blocked")
@@ -495,7 +495,7 @@ func fanoutMesh(c func() (mangos.Socket, error)) {
 	snaps = append(snaps, recvKeep("leaf1", socks[1], body))
 	snaps = append(snaps, recvKeep("leaf2", socks[2], ""))
 	snaps = append(snaps, recvKeep("hub", hub, ""))
-	_ = hub.Send([]byte(payload("again", 130)))
+	_ = kit.SendBytes(hub, []byte(payload("again", 130)))
 	kit.Quiesce()
 	scribble(snaps)
 	kit.Must("Close", func() {
@@ -519,14 +519,14 @@ func fanoutSurvey() {
 	}
 	kit.Quiesce()
 	body := payload("survey", 90)
-	must(sv.Send([]byte(body)), "Send")
+	must(kit.SendBytes(sv, []byte(body)), "Send")
 	var snaps []*ledger.Snapshot
 	for i, r := range rs {
 		snaps = append(snaps, recvKeep(fmt.Sprintf("respondent%d", i), r, body))
 	}
 	for i, r := range rs {
 		i, r := i, r
-		kit.Start("respond", func() (interface{}, error) { return nil, r.Send([]byte(fmt.Sprintf("vote-%d", i))) })
+		kit.Start("respond", func() (interface{}, error) { return nil, kit.SendBytes(r, []byte(fmt.Sprintf("vote-%d", i))) })
 	}
 	kit.Quiesce()
 	for i := 0; i < 2; i++ {
@@ -558,7 +558,7 @@ func reqRetained() {
 		evs := []kit.Event{
 			{Name: "send", Run: func() {
 				n++
-				c := kit.Start("Send", func() (interface{}, error) { return nil, s.Send([]byte(payload(fmt.Sprintf("q%d", n), 80))) })
+				c := kit.Start("Send", func() (interface{}, error) { return nil, kit.SendBytes(s, []byte(payload(fmt.Sprintf("q%d", n), 80))) })
 				kit.Quiesce()
 				_ = c
 			}},
@@ -609,7 +609,7 @@ func pubPipeFails() {
 	a, b := ep.Connect(), ep.Connect()
 	kit.Quiesce()
 	for i := 0; i < 3; i++ {
-		_ = p.Send([]byte(payload(fmt.Sprintf("m%d", i), 100)))
+		_ = kit.SendBytes(p, []byte(payload(fmt.Sprintf("m%d", i), 100)))
 	}
 	a.DropNow()
 	b.Take(3)
@@ -651,7 +651,7 @@ func streamWriteError() {
 	want = append(want, 0, 'S', 'P', 0, byte(s.Info().Self>>8), byte(s.Info().Self), 0, 0)
 	for i := 0; i < 3; i++ {
 		body := payload(fmt.Sprintf("pub%d", i), 90+i*40)
-		must(s.Send([]byte(body)), "Send")
+		must(kit.SendBytes(s, []byte(body)), "Send")
 		var pre []byte
 		if scheme == "vipc" {
 			pre = append(pre, 1)
